@@ -20,7 +20,7 @@ COMPONENTS = {"real": ["Atoms.load / load_cml", "xml.etree.ElementTree (real par
 ASSUMPTIONS = ["bonds are compared as a multiset of unordered atom pairs (listing order and orientation inside a bond are not judged)",
                "numeric bond orders only (Avogadro writes 1/2/3)"]
 NRUNS = {"quick": 8000, "thorough": 100000}
-MUST_REACH = ["documents_without_bonds", "id_scheme_shuffled", "id_scheme_strings", "fs_short_reads", "path_loads", "faults_fired"]
+MUST_REACH = ["documents_without_bonds", "id_scheme_shuffled", "id_scheme_strings", "path_loads", "stream_loads"]
 
 ELS = ["H", "C", "N", "O", "F", "S", "Cl", "Zr", "Cu", "Hf", "Zn"]
 
@@ -118,10 +118,19 @@ def execute(spec, ctx):
         a = _load(ctx, how, (lambda: Atoms.load(fh, filetype="cml")) if k % 2 == 0 else (lambda: Atoms.load_cml(fh)))
         _check(ctx, a, spec, how)
         ctx.count("stream_loads")
+        # what a caller does with a loaded molecule must not leak into later loads of the same document
+        try:
+            a.translate(np.array([0.5 + k, -1.0, 2.0]))
+            a.positions *= 1.5
+            if len(a.bonds):
+                a.bonds[:] = 0
+            a.atom_type_elements[0] = "Xx"
+        except Exception:
+            pass
     if spec.get("read_fault") is not None:
         # injected read error in the middle of the document: it must surface (ElementTree would otherwise parse a prefix)
         nreads = max(1, len(text) // 7)
-        k = 1 + int(spec["read_fault"] * nreads)
+        k = 1 if spec["read_fault"] < 0.3 else 1 + int(spec["read_fault"] * nreads)
         fh = fs.reader(text, name="doc.cml", script={"chunk": "prime", "eio_at_read": k})
         fired0 = fs.stats.get("eio_read_fired", 0)
         try:
